@@ -1161,6 +1161,84 @@ Proof.
     exfalso. apply (cmp_lt_ne _ _ HXp). symmetry. exact Ev0.
 Qed.
 
+(* the same for an entry both validators have accepted, whatever the bookkeeping of ids (used by
+   the metadata branch of the receive loop, Model/RecvMeta.v) *)
+Lemma feed_nomerge idx s st acc v' seen' files next :
+  NInv st acc -> cleanp (st_path s) ->
+  vstep (r_vstk st) (item_of s) = Some v' -> hl_step (r_seen st) s = Some seen' ->
+  let st1 := set_valid st v' seen' files next in
+  GB st1 (acc ++ [item_of s])
+  /\ (live st = true -> r_closed st = false -> NInv (diff_feed c idx s (r_old st1) st1) (acc ++ [item_of s])).
+Proof.
+  intros [[G A] O] Hcl Ev Eh. cbv zeta.
+  set (it := item_of s) in *.
+  pose proof (vstep_ok_path _ _ _ Ev) as Hok. change (vpath it) with (st_path s) in Hok.
+  pose proof (vstep_refines (r_vstk st) it (g_R D f0 tmps0 st acc G) Hok) as Hr. rewrite Ev in Hr. destruct Hr as [Hcv HR'].
+  destruct (cvstep_sound _ _ _ _ (g_vinv D f0 tmps0 st acc G) (okitem_names it Hok) Hcv) as [Hspec HI'].
+  change [citem_of it] with (map citem_of [it]) in HI'. rewrite <- map_app in HI'.
+  destruct (cvstep_shape _ _ _ (inv_chain _ _ (g_vinv D f0 tmps0 st acc G)) Hcv) as [Hparent Hshape].
+  pose proof (cvstep_parent_new _ _ _ Hcv) as Hpar'.
+  cbn [ipath citem_of it item_of vpath] in Hparent, Hshape, Hpar'.
+  assert (Hbase : forall st', r_fs st' = r_fs st -> r_vstk st' = v' -> r_pipes st' = r_pipes st -> r_tmps st' = r_tmps st ->
+             (forall q, In q (r_seen st') -> In q (r_seen st) \/ q = st_path s) -> GB st' (acc ++ [it])).
+  { intros st' E1 E2 E3 E4 E5. apply (GBase_ext D f0 tmps0 st st' acc it v'); auto. }
+  destruct (hl_step_seen _ _ _ Eh) as [Hseen' Hlinkseen].
+  set (st1 := set_valid st v' seen' files next).
+  assert (G1 : GB st1 (acc ++ [it])).
+  { apply Hbase; simpl; auto. intros q Hq. destruct (Hseen' q Hq) as [H|[H _]]; auto. }
+  split; [exact G1|]. intros L Ecl'.
+  assert (Ecl : r_closed st1 = false) by exact Ecl'.
+  pose proof (A L) as AL. destruct AL as [A1 A2 A3]. destruct (O L) as [(done & Esplit & Hdone) O2 O3].
+  specialize (Hdone Ecl'). destruct (O3 Ecl') as [Hprist Hrm].
+  assert (Hlt : forall it0, In it0 acc -> compare_path (vpath it0) (st_path s) = Lt).
+  { intros it0 Hit0. destruct Hspec as (_ & Hlt & _). rewrite compare_path_lex. apply (Hlt (citem_of it0)). apply in_map. exact Hit0. }
+  assert (Hpar0 : removelast (comps (st_path s)) = [] \/
+            exists q, In q (accpaths acc) /\ comps q = removelast (comps (st_path s)) /\ safe (r_fs st1) D (comps q)).
+  { destruct Hparent as [l Hl]. apply In_map_ce in Hl. destruct Hl as (ds & Hin & Eds).
+    destruct (stack_acc st acc ds l G (A L) Hin) as [E|(q & Hq & Eq & Hs)].
+    - left. rewrite <- Eds. exact E.
+    - right. exists q. split; auto. split; [rewrite Eq; exact Eds|exact Hs]. }
+  assert (Hlink0 : hardlink_branch s = true ->
+            In (st_linkname s) (accpaths acc) /\ safe (r_fs st1) D (comps (st_linkname s))).
+  { intros Hhb. pose proof (Hlinkseen Hhb) as Hin. split; [apply (g_seen D f0 tmps0 st acc G _ Hin)|apply (A3 _ Hin)]. }
+  assert (Hstack0 : forall ds l, In (ds, l) v' ->
+            pcomps ds = [] \/ (exists q, In q (accpaths acc) /\ comps q = pcomps ds /\ safe (r_fs st1) D (comps q))
+            \/ (pcomps ds = comps (st_path s) /\ wanted s)).
+  { intros ds l Hin.
+    assert (Hin' : In (pcomps ds, l) (map ce v')) by (apply in_map_iff; exists (ds, l); split; auto).
+    destruct (Hshape _ _ Hin') as [(Hp & l' & Hl')|(E1 & E2 & _)].
+    - apply In_map_ce in Hl'. destruct Hl' as (ds' & Hin2 & Eds).
+      destruct (stack_acc st acc ds' l' G (A L) Hin2) as [E|(q & Hq & Eq & Hs)].
+      + left. rewrite <- Eds. exact E.
+      + right. left. exists q. split; auto. split; [rewrite Eq; exact Eds|exact Hs].
+    - right. right. split; [exact E1|]. left. cbn [isdir citem_of it item_of visdir] in E2. exact E2. }
+  assert (Hseen0 : forall q, In q seen' ->
+            (In q (accpaths acc) /\ safe (r_fs st1) D (comps q)) \/ (q = st_path s /\ wanted s)).
+  { intros q Hq. destruct (hl_step_wanted _ _ _ Eh q Hq) as [H|H]; [left|right; exact H].
+    split; [apply (g_seen D f0 tmps0 st acc G _ H)|apply (A3 _ H)]. }
+  pose proof (diff_feed_inv st1 acc s v' seen' idx Hok Hcl Hspec HI' Hpar'
+                (g_acc D f0 tmps0 st acc G) Hpar0 Hlink0 Hstack0 Hseen0 Ecl (r_old st1) st1 done) as X.
+  apply X. clear X.
+  constructor.
+  - exact G1.
+  - reflexivity.
+  - reflexivity.
+  - intros id pp Hin. apply (g_pipes D f0 tmps0 st acc G id pp Hin).
+  - exact Ecl.
+  - reflexivity.
+  - exact Esplit.
+  - intros s' Hs'. destruct (Hdone s' Hs') as (it0 & Hit0 & Hle).
+    apply (cmp_le_lt_trans _ (vpath it0)); auto.
+  - exact O2.
+  - intros _. split; [exact A1|]. split; [auto|]. split; [exact Hprist|].
+    destruct Hrm as [E|(X & E & HX & Hgt & Hdead & (it1 & Hit1 & Hle))]; [left; exact E|right].
+    assert (HXp : compare_path X (st_path s) = Lt) by (apply (cmp_le_lt_trans _ (vpath it1)); auto).
+    exists X. split; [exact E|]. split; [exact HX|]. split; [exact Hgt|]. split; [|exact HXp].
+    intros it0 Hit0 Ev0. apply in_app_or in Hit0. destruct Hit0 as [Hit0|[<-|[]]]; [apply Hdead; auto|].
+    exfalso. apply (cmp_lt_ne _ _ HXp). symmetry. exact Ev0.
+Qed.
+
+
 Lemma flush_ninv idx st acc :
   NInv st acc -> live st = true -> r_closed st = false ->
   NInv (diff_flush c idx (r_old st) (set_flags st true (r_waited st))) acc.
